@@ -216,6 +216,166 @@ class C18(SeqCheck):
         return sum(1 for x in o if x.startswith("1 ") and len(x.split()) >= 2) >= 3
 
 
-REGISTRY = {"C04": C04, "C05": C05, "C06": C06, "C07": C07, "C18": C18, "C20": C20}
+class NAT(SeqCheck):
+    harness = "nat"
+    hbin = "h_nat"
+    test_binary = True
+    model_entry = "nat_model"
+    oracle_entry = "nat_oracle"
+    overlay = {"vnet/verif_export.go": "vnet/verif_export.go"}
+    quick_n = 3000
+    thorough_n = 120000
+    shards = 12
+    rule = ("histories of translateOutbound/translateInbound on a real networkAddressTranslator inside a testing/synctest bubble "
+            "(exact virtual time): all 3x3 mapping/filtering behaviours and 1:1 mode with 1-3 IP pairs, lifetimes 0(default 30 s)/30 s/5 s/1 s/"
+            "100 ms, 5 internal endpoints and 6 remotes sharing IPs and ports crosswise, inbound to live / expired / never allocated / "
+            "other-IP addresses, time steps 0, 1 ns, lifetime-1, lifetime, lifetime+1, 2*lifetime, lifetime/3; one history per run with "
+            "16500 allocations (past the 16384 ports of the dynamic range); the harness also checks payload and the untouched address "
+            "(kind 9 otherwise); non-trivial = at least 3 translations succeeded and 1 was refused; distinct = distinct (config, operations)")
+    trusted = ["overlay file harness/overlay/vnet/verif_export.go (constructor + translate wrappers, build tag verif)",
+               "testing/synctest fake clock", "string map keys modelled as tuples (IPv4)"]
+    assumptions = ["time stamps of a history never decrease", "UDP chunks only (TCP translation is not implemented in vnet)"]
+
+    def gen_args(self, tier):
+        return []
+
+    def is_nontrivial(self, conf, ops, obs):
+        o = segs(obs)
+        return sum(1 for x in o if x.startswith("0 ")) >= 3 and sum(1 for x in o if x in ("2", "1")) >= 1
+
+    def code_legend(self):
+        return "flags: 1 = first answer that differs from the Spec is an outbound translation (C02), 2 = an inbound translation (C03)"
+
+
+class C02(NAT):
+    pid = "C02"
+    design_ref = "4 (C02/C03)"
+    technique = "Coq refinement proof (nat.go model with lazy expiry = removal-free Spec, all time-monotone histories) + Spec theorems + differential correspondence check under virtual time"
+    level_text = ("Coq theorems: the model of nat.go answers every time-monotone history like the removal-free Spec (C02_model_refines_spec); "
+                  "in every reachable state external addresses are distinct, router-IP, ports counted from 49152 and valid when handed out; an "
+                  "outbound datagram reuses an address exactly while a mapping with the same (internal endpoint, mapping key) is live and gets a "
+                  "fresh one otherwise; inbound never prolongs; 1:1 rewriting is invertible. Tied to the code by differential histories with exact "
+                  "virtual time and by the extracted Spec applied to the implementation's answers")
+    level_note = ("trusted: Coq kernel, extraction + driver, harness, synctest clock; known finding: the 16385th mapping of a NAT gets port "
+                  "65536 and the translation fails from then on (the model reproduces it; C02 as worded is not contradicted: no invalid address is handed out)")
+
+    def oracle_codes_for(self, pid):
+        return 1
+
+
+class C03(NAT):
+    pid = "C03"
+    design_ref = "4 (C02/C03)"
+    technique = "Coq proof (admission iff live mapping + permission; inbound changes no later answer, all histories) + differential correspondence check under virtual time"
+    level_text = ("Coq theorems: inbound forwarded iff a live mapping owns the destination and permits the sender under the filtering key, to the "
+                  "mapping's internal endpoint (C03_admit_iff); permissions are recorded only by outbound datagrams through the mapping; any inbound "
+                  "datagram, dropped or not, changes no later answer of the model (C03_inbound_changes_no_later_answer); 1:1 rule. Tie as for C02")
+    level_note = C02.level_note
+
+    def oracle_codes_for(self, pid):
+        return 2
+
+
+class C09(SeqCheck):
+    pid = "C09"
+    diff_is_violation = True
+    harness = "dl"
+    hbin = "h_dl"
+    test_binary = True
+    model_entry = "dl_model"
+    oracle_entry = None
+    overlay = {"deadline/verif_export.go": "deadline/verif_export.go"}
+    quick_n = 20000
+    thorough_n = 600000
+    shards = 12
+    design_ref = "4 (C09)"
+    technique = "Coq invariant proof over all interleavings of Set / clock / timer dispatch / stale callbacks + differential correspondence check with a controlled timer"
+    level_text = ("Coq theorems about a model of Deadline plus its timer environment (expiry dispatched by the runtime, callback run later, any "
+                  "number of Sets in between): Done is closed only when the latest Set's non-zero time has passed, never by a stale callback; it is "
+                  "closed once the timer is quiescent; Err iff Done; no double close; fresh channel after expiry. Tied to the code by running the "
+                  "real Deadline with a harness-controlled timer in a synctest bubble on generated event sequences (up to several callbacks "
+                  "outstanding) and comparing Done/identity/Err/Deadline/panic after every event")
+    level_note = ("trusted: Coq kernel, extraction + driver, harness; the runtime's timer contract (Stop reports whether it prevented the firing; a due "
+                  "timer is eventually dispatched and its callback eventually runs) is the model's environment, i.e. 'fires exactly when' holds modulo "
+                  "timer delivery; fewer than 254 callbacks outstanding (uint8 counter); timer_js.go not covered")
+    rule = ("event sequences of 8-48 events + settle phase: Set(zero | past | now | now+1 | future), Advance(0,1,50,150,400 ns), Dispatch (if the fake "
+            "timer is armed and due), RunCallback (if one is outstanding); non-trivial = Done got closed at least once; distinct = distinct event list")
+    trusted = ["overlay file harness/overlay/deadline/verif_export.go (fake timer implementing the unexported timer interface, VerifNew, VerifTimeout)",
+               "testing/synctest fake clock"]
+    assumptions = ["fewer than 254 dispatched-but-not-run callbacks at any time"]
+
+    def is_nontrivial(self, conf, ops, obs):
+        return any(x.startswith("1 ") for x in segs(obs))
+
+
+class C13(SeqCheck):
+    pid = "C13"
+    diff_is_violation = True
+    harness = "c13"
+    hbin = "h_c13"
+    test_binary = True
+    model_entry = "c13_model"
+    oracle_entry = None
+    overlay = {"vnet/verif_export.go": "vnet/verif_export.go"}
+    quick_n = 2400
+    thorough_n = 80000
+    shards = 12
+    design_ref = "4 (C13)"
+    technique = "Coq proof (freshness/exhaustion of automatic IPs; bind rule, ephemeral scan for every offset, close, lookup over all socket sets) + differential correspondence check through the public API"
+    level_text = ("Coq theorems about executable models of Router.addNIC/assignIPAddress and Net._dialUDP/assignPort/udpConnMap: an automatic "
+                  "address is never one a NIC holds, stays in the subnet or errors, exhaustion only when every candidate is held; bind succeeds "
+                  "iff the IP is the host's and no open socket covers (IP, port); port 0 yields a free port of 5000-5999 for every scan offset and "
+                  "fails iff none is free; sockets stay pairwise non-covering; close frees; lookup finds the unique covering socket. Tied to the "
+                  "code by differential histories through NewRouter/AddNet/NewNet and ListenUDP/ListenPacket/DialUDP/Close")
+    level_note = ("trusted: Coq kernel, extraction + driver, harness; the random scan offset of assignPort is not observable: the model is given "
+                  "the offset that reproduces the port the implementation chose and must agree that this port is the first free one from there; "
+                  "duplicate static addresses are outside the property; IPv4 only")
+    rule = ("router histories: 5-45 (sometimes 270) AddNet calls mixing automatic and distinct static addresses (inside the automatic range, at "
+            ".254, beyond the subnet) on /24, /25, /28 and /16 subnets; host histories: hosts with 1-3 IPs, 10-60 binds (specific, wildcard, "
+            "loopback, foreign IP; ports 0, 80, 81, 4999-6000), closes and lookups, sometimes with the whole ephemeral range filled first; "
+            "non-trivial = at least 2 successful and 1 refused operation; distinct = distinct (config, operations)")
+    trusted = ["overlay file harness/overlay/vnet/verif_export.go (VerifFindSock accessor)"]
+    assumptions = ["single-threaded use of one Net/Router", "IPv4"]
+
+    def is_nontrivial(self, conf, ops, obs):
+        o = segs(obs)
+        return sum(1 for x in o if x.startswith("0")) >= 2 and sum(1 for x in o if x and x[0] in "123" and not x.startswith("0")) >= 1
+
+
+class C16(SeqCheck):
+    pid = "C16"
+    diff_is_violation = True
+    harness = "loss"
+    hbin = "h_loss"
+    test_binary = True
+    model_entry = "loss_model"
+    oracle_entry = None
+    overlay = {"vnet/verif_export.go": "vnet/verif_export.go"}
+    quick_n = 3000
+    thorough_n = 100000
+    shards = 12
+    design_ref = "4 (C16)"
+    technique = "Coq proof (end points, subsequence, counting lemma for the drop probability) + exact per-datagram differential check with predicted PRNG draws"
+    level_text = ("Coq theorems: chance <= 0 forwards all, chance >= 100 forwards none, the output is an in-order at-most-once subsequence, and "
+                  "exactly clamp(chance,0,100) of the 100 draw values drop (so the drop probability under uniform draws is chance/100). Tied to "
+                  "the code per datagram: the global math/rand source is seeded after construction (GODEBUG=randseednop=0) and every draw is "
+                  "predicted, so forwarded/dropped is compared exactly for every datagram, together with the chunk's content (UDP and TCP chunks)")
+    level_note = ("trusted: Coq kernel, extraction + driver, harness; uniformity of math/rand.Intn (the statistical clause is the counting theorem "
+                  "plus the trusted PRNG); one draw per datagram is checked, not assumed (a second draw desynchronises the prediction)")
+    rule = ("streams of 10-310 (sometimes 2000) UDP/TCP chunks through a LossFilter with chance in {0,1,2,5,30,50,70,98,99,100,101,150,255,256,300,"
+            "65536,-1,-5,-256}; per chunk: predicted draw, forwarded?, content intact?; non-trivial = a stream with both forwarded and dropped "
+            "chunks; distinct = distinct (chance, seed, stream)")
+    trusted = ["overlay file harness/overlay/vnet/verif_export.go (sink NIC, filter constructors)", "GODEBUG=randseednop=0 makes rand.Seed effective"]
+    assumptions = ["nobody else draws from the global math/rand source while a stream runs"]
+
+    def harness_env(self):
+        return {"GODEBUG": "randseednop=0"}
+
+    def is_nontrivial(self, conf, ops, obs):
+        o = segs(obs)
+        return any(x.startswith("1") for x in o) and any(x.startswith("0") for x in o)
+
+
+REGISTRY = {"C02": C02, "C03": C03, "C04": C04, "C05": C05, "C06": C06, "C07": C07, "C09": C09, "C13": C13, "C16": C16, "C18": C18, "C20": C20}
 
 NOT_CLAIMED = {}
